@@ -44,6 +44,13 @@ func (node *Node) processUnconfirmedTx(ctx context.Context, tx handlers.TxData) 
 	//   for attempted double spends.
 	conflicts, trusted, added := node.memPool.AddTransaction(ctx, tx.Msg, tx.Trusted)
 	if !added {
+		if trusted {
+			// Already saw this tx, but maybe not from the trusted node. The mempool is not saved,
+			// so the tx repo has to know too.
+			if err := node.txs.MarkTrusted(ctx, *hash); err != nil {
+				return errors.Wrap(err, "mark trusted")
+			}
+		}
 		return nil // Already saw this tx
 	}
 
